@@ -92,7 +92,12 @@ def _verdict(chk, rule, inst, res, detail, loc, fn):
 def check_role_fn(chk, m, fn, role, cfg):
     own, peer = ("writei", "readi") if role == "producer" else ("readi", "writei")
     tag = "%s[%s]" % (fn.name, cfg)
-    ps = paths.enumerate_paths(fn, m)
+    # a wait loop that only polls (no store, RMW, call or payload access inside the cycle) may be cut after one round:
+    # its iterations have no effect and the exit iteration's loads are the ones the guard rules see
+    spin_only = bool(fn.loops_headers()) and all(
+        i.op not in ("store", "atomicrmw", "cmpxchg", "call") or i.is_dbg() or (i.op == "call" and (i.callee or "").startswith("llvm."))
+        for i in fn.real_insts() if fn.in_cycle(i))
+    ps = paths.enumerate_paths(fn, m, loop_bound=1 if spin_only else None)
     n_success = 0
     for p in ps:
         if paths.is_assert_fail_path(p):
@@ -127,10 +132,20 @@ def check_role_fn(chk, m, fn, role, cfg):
             chk.ob("R1.payload-present", pathid, bool(mine),
                    "a path that publishes a new %s performs a %s" % (own, want), S.inst.loc, fn.name)
             late = [k for k in pay if k > k_s]
-            chk.ob("R1.payload-before-publish", pathid, not late,
-                   "every payload access precedes the store of %s%s" %
-                   (own, "" if not late else "; payload access at %s follows it" % ev[late[0]].inst.loc),
-                   S.inst.loc, fn.name)
+            if role == "consumer":
+                # reading the OLD slot after publishing the new readi is safe: the producer may fill slot w only while
+                # next(w) != readi (R4.guard of the producer), so it cannot reach slot readi-1 until readi moves again,
+                # and that is the consumer's own next publish; R4.old-slot below checks that the slot read is the old one
+                bad = [k for k in late if ev[k].kind != "load"]
+                chk.ob("R1.payload-before-publish", pathid, not bad,
+                       "the consumer only reads the payload%s" % ("" if not bad else "; write at %s" % ev[bad[0]].inst.loc) +
+                       ("; %d read(s) of the old slot follow the publication of %s (safe: one slot is always kept free)" % (len(late), own)
+                        if late and not bad else ""), S.inst.loc, fn.name)
+            else:
+                chk.ob("R1.payload-before-publish", pathid, not late,
+                       "every payload access precedes the store of %s%s" %
+                       (own, "" if not late else "; payload access at %s follows it" % ev[late[0]].inst.loc),
+                       S.inst.loc, fn.name)
             last_pay = max([k for k in pay if k < k_s], default=0)
             strong = (S.kind == "store" and S.inst.ordering in REL) or (S.kind != "store" and S.inst.ordering in REL) \
                 or _thread_fence_between(ev, last_pay, k_s, REL)
@@ -188,7 +203,9 @@ def check_role_fn(chk, m, fn, role, cfg):
                    "publishing path is guarded by %s (%s test)" % (what, "not-full" if role == "producer" else "not-empty"),
                    S.inst.loc, fn.name)
             # return value
-            if role == "producer":
+            if role == "producer" and fn.ret_ty == "void":
+                chk.ob("R4.return", pathid, True, "blocking put: returns nothing, publishes on every returning path", p.ret_inst.loc, fn.name)
+            elif role == "producer":
                 ok = p.ret is not None and p.ret[0] == "c" and p.ret[2] != 0
                 chk.ob("R4.return", pathid, ok, "successful put returns true (got %s)" % fmt(p.ret), p.ret_inst.loc, fn.name)
             else:
